@@ -1016,7 +1016,7 @@ def search(run, rng, quick):
     import renormalizer  # noqa: F401  (init_log runs on import)
     logging.getLogger("renormalizer").setLevel(logging.ERROR)
     c = Ctx(run, rng)
-    k = 1 if quick else 8
+    k = 4 if quick else 40
     part_sho(c, 30 * k)
     part_sho_dvr(c, 10 * k)
     part_sine(c, 6 * k)
